@@ -128,6 +128,57 @@ def run(tier, seed):
                               "outer -> mid called with further calls prevented (%s) -> leaf: leaf executed=%s, mid caught %r (expected RuntimeError, no execution)" % (how, leaf_ran, caught),
                               {"leaf_memoized_before": pre2, "root_context": ctx, "edge": edge})
             shutil.rmtree(os.path.join(scratch, "store-v%d" % t), ignore_errors=True)
+        # re-attached context arguments: a function that already carries context arguments gets a new dictionary
+        # (the documented idiom: clone the dictionary, change it, attach it again); the new arguments replace the old
+        # ones entirely, also when the two dictionaries are equal for Python but not as typed arguments
+        RE = [({"c": 1}, {"c": True}), ({"c": True}, {"c": 1.0}), ({"c": 1.0}, {"c": 1}), ({"c": 0}, {"c": False}),
+              ({"c": 1}, {"c": 1}), ({"c": 1, "d": 2}, {"c": 1}), ({"c": [1, 2]}, {"c": [True, 2]}), ({"c": 2}, {"c": 3})]
+        for t, (a, b) in enumerate(RE if tier == "quick" else RE * 8):
+            stats["reattach_cases"] = stats.get("reattach_cases", 0) + 1
+            total += 1
+            kind = ["mem", "fs", "fs_cache"][t % 3]
+            r = R.Runner(m, scratch, R.make_storage(kind, scratch, "ra%d" % t))
+            leaf = {"id": 7500 + t}
+            mid = {"id": 7600 + t, "calls": [{"fn": "n1", "spec": leaf, "catch": True}]}
+            same = repr(a) == repr(b)
+            meta = {"first_context": repr(a), "re_attached_context": repr(b), "backend": kind}
+            f_a = fnmod.n2.with_context_args(dict(a))
+            f_ab = f_a.with_context_args(dict(b))
+            f_b = fnmod.n2.with_context_args(dict(b))
+            try:
+                r.trace.clear()
+                f_a(mid)
+                r.trace.clear()
+                f_ab(mid)
+                ex = sorted(e[2] for e in r.trace.execs())
+                want = [] if same else [leaf["id"], mid["id"]]
+                if ex != want:
+                    rep.violation("C16:reattached-context-not-identity", "n2 under %r ran; the same function object re-attached with %r then executed %r (expected %r: %s)"
+                                  % (a, b, ex, want, "same context" if same else "a different context is a different call, for the nested call too"), meta)
+                r.trace.clear()
+                f_b(mid)
+                ex = sorted(e[2] for e in r.trace.execs())
+                if ex:
+                    rep.violation("C16:reattached-context-not-identity", "after the re-attached call under %r, a fresh attachment of %r executed %r (expected to be served)" % (b, b, ex), meta)
+                mm = f_ab.memento(mid)
+                got = None if mm is None else mm.invocation_metadata.fn_reference_with_args.context_args
+                if mm is None or repr(got) != repr(f_b.memento(mid).invocation_metadata.fn_reference_with_args.context_args):
+                    rep.violation("C16:reattached-context-not-identity", "memento of the re-attached call carries context %r" % (got,), meta)
+                # the identity includes the context when the call is forgotten through its memento, too
+                fnmod.n2(mid)
+                f_b.memento(mid).forget()
+                r.trace.clear()
+                f_b(mid)
+                ex1 = sorted(e[2] for e in r.trace.execs())
+                r.trace.clear()
+                fnmod.n2(mid)
+                ex2 = sorted(e[2] for e in r.trace.execs())
+                if ex1 != [mid["id"]] or ex2:
+                    rep.violation("C16:forget-through-memento-ignores-context", "the memento of n2 under %r was forgotten: calling again under %r executed %r (expected the one forgotten call), "
+                                  "the entry of the same arguments without context arguments then executed %r (expected to be served)" % (b, b, ex1, ex2), meta)
+            except Exception as e:
+                rep.violation("C16:reattach-raised", "%s: %s" % (type(e).__name__, str(e)[:120]), meta)
+            shutil.rmtree(os.path.join(scratch, "store-ra%d" % t), ignore_errors=True)
         try:
             res = C.run_coq_cases("c16", R.HEADER, terms, "run_case", shard=200,
                                   case_type="list (nat * ndef) * list (nat * nat) * (nat * nat) * (outcome * list nat * list key * list nat)")
